@@ -1573,15 +1573,18 @@ fn gen_trees(seed: u64, thorough: bool, em: &mut Emitter) {
     // T4. sizes: two log-mode siblings, the skip wrapper and a fail-fast sibling on a stateless
     // parent, n records (every power of two and its neighbours), 1..16 partitions
     let mut sizes: Vec<i64> = Vec::new();
-    for p in [16i64, 32, 64, 128, 256, 512, 1024] {
+    for p in [16i64, 32, 64, 128] {
         sizes.extend([p - 1, p, p + 1]);
     }
-    sizes.push(20);
+    sizes.extend([20, 256, 1024]);
     if thorough {
-        sizes.extend([2047, 2048, 4096, 4097]);
+        sizes.extend([255, 257, 511, 512, 513, 1023, 1025, 2047, 2048, 4096, 4097]);
     }
     for (i, &n) in sizes.iter().enumerate() {
         for keyed0 in [false, true] {
+            if n > 200 && !thorough && keyed0 != (n == 256) {
+                continue; // the explicit observations of big trees are expensive to parse in Coq
+            }
             let mut t = TreeGen::new(keyed0);
             // +4 keeps v mod 4: the parent's records are invalid where the source's are
             let parent = t.build(0, &[0, 4]).unwrap();
@@ -1720,7 +1723,7 @@ fn gen_more(seed: u64, thorough: bool, em: &mut Emitter) {
                     _ => json!([i as i64]),                                   // all fail
                 })
                 .collect();
-            if len > 300 && variant == 0 {
+            if len > 200 && variant != 2 && !(variant == 1 && len % 2 == 0) {
                 continue;
             }
             em.case("combine", Value::Array(parts), variant != 0, &["combine", "long"]);
